@@ -323,9 +323,15 @@ def run_check(pid, tier):
         max_rep = 3
     confirm_deadline = time.time() + float(os.environ.get("VERIF_CONFIRM_S", "300"))
     skipped = 0
-    for s, v in list(new.items())[:max_rep]:
+    for s, v in list(new.items()):
+        if len(reported) >= max_rep or len(unreproduced) >= 60:
+            skipped += 1
+            continue
         if reported and time.time() > confirm_deadline:
             skipped += 1          # enough confirmed violations are reported; the rest is only counted
+            continue
+        if not reported and time.time() > confirm_deadline + 600:
+            skipped += 1          # nothing reproduces: do not try for ever
             continue
         path = write_replay(pid, tier, seed, v)
         ok, tail = confirm_fresh(path, hangs)
@@ -338,8 +344,8 @@ def run_check(pid, tier):
             unreproduced.append({"replay": path, "tail": tail[-300:]})
             print("WARNING: case did not reproduce in a fresh interpreter (state leaked "
                   "between executions?): %s" % path)
-    if len(new) > max_rep or skipped:
-        print("note: %d further distinct violating cases not written out" % (max(0, len(new) - max_rep) + skipped))
+    if skipped:
+        print("note: %d further distinct violating cases not written out" % skipped)
     for s, n in hits.items():
         fid, desc = known[s]
         print("KNOWN-FINDING: property=%s %s %s" % (pid, fid, desc))
